@@ -8,10 +8,13 @@ DROPIN_NAMES = [b"10-a.conf", b"9-a.conf", b"a.conf", b"Z.conf", b".hid.conf", b
 LOOKALIKE_NAMES = [b"10-az.conf", b"10-bY.conf", b"5-Az.conf", b"5-az.conf", b"q.d.conf", b"q.conf"]
 
 
-def content(rng, tag):
-    """small file: group-less and grouped keys, overlapping across files, plus a provenance key"""
+def content(rng, tag, bare=False):
+    """small file: group-less and grouped keys, overlapping across files, plus a provenance key;
+    bare: some keys stand alone on their line (no delimiter, no value) - for reads with a delimiter set that contains a blank"""
     lines = []
-    if rng.random() < 0.7:
+    if bare and rng.random() < 0.4:
+        lines.append(b"k")
+    elif rng.random() < 0.7:
         lines.append(b"k=" + tag)
     if rng.random() < 0.4:
         lines.append(b"g" + bytes([rng.choice(b"12")]) + b"=" + tag)
@@ -19,7 +22,9 @@ def content(rng, tag):
     for sec in (b"A", b"B"):
         if rng.random() < 0.5:
             lines.append(b"[" + sec + b"]")
-            if rng.random() < 0.8:
+            if bare and rng.random() < 0.4:
+                lines.append(b"k")
+            elif rng.random() < 0.8:
                 lines.append(b"k=" + tag)
             if rng.random() < 0.4:
                 lines.append(b"s" + sec + b"_" + tag + b"=" + tag)
@@ -53,7 +58,7 @@ class Tree:
                 s.mkdir(path)
 
 
-def random_tree(rng, dirs, name, dsfx, postfixes, tagger, p_main=0.6, names=DROPIN_NAMES, owner=None, decoys=None, links=True):
+def random_tree(rng, dirs, name, dsfx, postfixes, tagger, p_main=0.6, names=DROPIN_NAMES, owner=None, decoys=None, links=True, bare=False):
     """dirs: layer directories (lowest first); main file <dir>/<name><dsfx>; drop-ins in <dir>/<name><postfix>/;
     decoys: further drop-in directory postfixes which get files but are not to be consulted"""
     t = Tree()
@@ -73,7 +78,7 @@ def random_tree(rng, dirs, name, dsfx, postfixes, tagger, p_main=0.6, names=DROP
         if dsfx == b"" and any(q.startswith(b"/") or q == b"" for q in postfixes):
             st = 1.0   # <dir>/<name> has to be a directory here
         if st < p_main * 0.6:
-            t.files.append((mainp, "file", content(rng, tagger()), uid, gid))
+            t.files.append((mainp, "file", content(rng, tagger(), bare), uid, gid))
         elif st < p_main * 0.8:
             t.files.append((mainp, "file", b"", uid, gid))
         elif st < p_main:
@@ -97,10 +102,10 @@ def random_tree(rng, dirs, name, dsfx, postfixes, tagger, p_main=0.6, names=DROP
                         t.files.append((dd + b"/" + nm, "link", b"/dev/null", uid, gid))
                     else:
                         tag = tagger()
-                        t.files.append((b"/store/" + tag + b".data", "file", content(rng, tag), uid, gid))
+                        t.files.append((b"/store/" + tag + b".data", "file", content(rng, tag, bare), uid, gid))
                         t.files.append((dd + b"/" + nm, "link", b"/store/" + tag + b".data", uid, gid))
                 else:
-                    t.files.append((dd + b"/" + nm, "file", content(rng, tagger()), uid, gid))
+                    t.files.append((dd + b"/" + nm, "file", content(rng, tagger(), bare), uid, gid))
     return t
 
 
@@ -197,11 +202,14 @@ def tree_scenario(sid, rng, shape=None, cb=None, malformed_at=None):
     shape = shape or rng.choice(SHAPES)
     p = shape_params(rng, shape)
     tg = Tagger()
-    t = random_tree(rng, p["dirs"], p["name"], p["dsfx"], p["postfixes"], tg, decoys=p["decoys"])
-    s = Scenario(sid, {"shape": shape, "suffix": p["suffix"], "nfiles": len(t.files)})
+    # a seventh of the trees are read with a delimiter set that contains a blank (login.defs style next to key=value): there a key
+    # may stand alone on its line, and such a key in a later file takes the value of the earlier files away
+    bare = malformed_at is None and rng.random() < 0.15
+    t = random_tree(rng, p["dirs"], p["name"], p["dsfx"], p["postfixes"], tg, decoys=p["decoys"], bare=bare)
+    s = Scenario(sid, {"shape": shape, "suffix": p["suffix"], "nfiles": len(t.files), "bare": bare})
     t.emit(s)
     s.add("LOGOPEN", 1)
-    emit_read(s, p, 0, cb=cb)
+    emit_read(s, p, 0, cb=cb, delim=b" =" if bare else b"=")
     s.add("RAW", 0)
     s.add("DUMP", 0)
     if True:
